@@ -1177,3 +1177,20 @@ Fixpoint attach_inlines (t : tree) : result tree :=
       Ok (Node k lines a kids')
   end.
 End Attach.
+
+(* the hypothesis the inline phase relies on, as booleans (evaluated in the correspondence runs,
+   proved of the block phase in proofs/): the lines of every inline-bearing block are non-empty,
+   inside the source, without padding or forced newline, and in source order *)
+Definition seg_ok_b (src : bytes) (s : seg) : bool :=
+  ((0 <=? s_start s) && (s_start s <? s_stop s) && (s_stop s <=? zlen src) && (s_pad s =? 0))%Z && negb (s_fnl s).
+Fixpoint segs_sorted_b (l : list seg) : bool :=
+  match l with
+  | a :: ((b :: _) as tl) => (s_stop a <=? s_start b)%Z && segs_sorted_b tl
+  | _ => true
+  end.
+Fixpoint tree_lines_ok (src : bytes) (t : tree) {struct t} : bool :=
+  match t with
+  | Node k lines _ kids =>
+    (if has_inlines k then forallb (seg_ok_b src) lines && segs_sorted_b lines else true) &&
+    (fix go (l : list tree) : bool := match l with [] => true | x :: r => tree_lines_ok src x && go r end) kids
+  end.
